@@ -241,7 +241,7 @@ def rule_dk(ctx: Ctx) -> RuleResult:
         if isinstance(n, (ast.ListComp, ast.GeneratorExp)) and len(n.generators) == 1 and isinstance(n.elt, ast.Call):
             vararg = gen.node.args.vararg.arg if gen.node.args.vararg else None
             if conv in [t for t in ctx.cg.resolve_call(gen, gen.module, n.elt) if isinstance(t, FuncInfo)] and \
-                    norm(n.generators[0].iter) == vararg and not n.generators[0].ifs and \
+                    norm(n.generators[0].iter) in (vararg, f"list({vararg})", f"tuple({vararg})") and not n.generators[0].ifs and \
                     norm(n.elt.args[0]) == norm(n.generators[0].target):
                 ok = True
     rr.ob(gen.relpath, gen.qualname, "[self._convert(data) for data in data_variants]",
